@@ -24,10 +24,14 @@ ASSUMPTIONS = [
     "_repr_html_ object, metadata node",
 ]
 
-IL_FULL = [T("a"), T("x\ny"), ["N", 7], H("<i>h</i>"), R("<u>r</u>"), M]
+IL_FULL = [T("a"), T("x\ny"), ["N", 7], H("<i>h</i>"), R("<u>r</u>"), M, T("e\n"), T(""),
+           E("style", False, [T("p"), T("q")])]
 S_LEAVES = [E("script", True, [T("a<b")]), E("script", True, [T("p"), T("q")]),
             E("style", True, [])]
 IL_RED = [T("a"), R("<u>r</u>"), M]
+IL_TOP = [T("a"), R("<u>r</u>"), M, T(""), H("")]
+BA = lambda k: E("div", True, k, [["class", "c d"], ["title", "t\"q"]])      # noqa: E731
+IA = lambda k: E("span", False, k, [["id", "i"]])                            # noqa: E731
 EXTRA_EOL = [(0, "|"), (1, "|")]
 
 
@@ -38,15 +42,18 @@ def make_fn(configs, toplist=False):
             obj = None
         nontriv = False
         outcome = []
-        for (indent, eol) in configs:
+        # ONE object per case, rendered under every configuration in turn (so that anything a
+        # render leaves behind on the object shows in the next one); plus a fresh object at the end
+        if toplist:
+            from htmltools import TagList
+            obj = TagList(*[build(c) for c in case])
+        else:
+            obj = build(case)
+        for (indent, eol) in list(configs) + [configs[0]]:
+            got = obj.get_html_string(indent, eol)
             if toplist:
-                from htmltools import TagList
-                obj = TagList(*[build(c) for c in case])
-                got = obj.get_html_string(indent, eol)
                 exp = ref_render_list(case, indent, eol)
             else:
-                obj = build(case)
-                got = obj.get_html_string(indent, eol)
                 exp = ref_render_tag(case, indent, eol)
             if eol == "\n" and indent == 0:
                 nontriv = exp.count("\n") >= 2
@@ -58,6 +65,23 @@ def make_fn(configs, toplist=False):
                 break
         return (nontriv, "".join(outcome), viols)
     return fn
+
+
+def catalogue_cases():
+    from htmltools import svg, tags
+    out = []
+    for mod in (tags, svg):
+        for n, f in vars(mod).items():
+            if callable(f) and getattr(f, "__module__", "") == mod.__name__ and not n.startswith("_"):
+                ws = f().add_ws
+                for kids in ([], [T("x")], [T("x"), T("y")]):
+                    el = E(n, ws, kids)
+                    code = E("code", False, [T("c")])
+                    out.append(B([el, T("tail")]))
+                    out.append(B([T("lead"), el, code]))
+                    out.append(I([code, el, code]) if not ws else B([code, el, code]))
+                    out.append(B([el, el]))
+    return out
 
 
 def chain(depth, inner):
@@ -83,11 +107,14 @@ def plan(tier):
     fn_list = make_fn(configs, toplist=True)
     out = []
     # wide-shallow: every sibling pattern of up to 4 children under a block / inline parent
-    _, blk = valid_trees(IL_FULL, IL_FULL + S_LEAVES, [I, Vi], [B, Vb], 1, 4)
-    out.append(dict(kind="space", name="wide-shallow-d1w4", space=only_elements(blk), fn=fn_tag,
-                    execs=len(configs), note="depth<=1 fan-out<=4 full alphabet"))
+    _, blk = valid_trees(IL_FULL, IL_FULL + S_LEAVES, [I, Vi], [B, Vb], 1, 3 if tier == "quick" else 4)
+    out.append(dict(kind="space", name="wide-shallow", space=only_elements(blk), fn=fn_tag,
+                    execs=len(configs), note="depth<=1 fan-out<=3 (quick) / 4, full alphabet"))
+    _, blka = valid_trees(IL_RED, IL_RED + S_LEAVES[:1], [I, IA], [B, BA], 2 if tier != "quick" else 1, 2 if tier != "quick" else 3)
+    out.append(dict(kind="space", name="attribute-bearing", space=only_elements(blka), fn=fn_tag,
+                    execs=len(configs), note="tags with attributes (div with 2, span with 1), reduced leaves"))
     # top-level lists of up to 3 (quick) / 4 items, items of depth <= 1 (fan-out 2)
-    _, blk1 = valid_trees(IL_RED, IL_RED + S_LEAVES[:1], [I, Vi], [B, Vb], 1, 1)
+    _, blk1 = valid_trees(IL_TOP, IL_TOP + S_LEAVES[:1], [I, Vi], [B, Vb], 1, 1)
     out.append(dict(kind="space", name="toplist", fn=fn_list, execs=len(configs),
                     space=Seq(blk1, 0, 3 if tier == "quick" else 4),
                     note="top-level TagList of <=3 (quick) / <=4 (thorough) items, items depth<=1 fan-out<=1, reduced alphabet"))
@@ -116,4 +143,8 @@ def plan(tier):
     _, blk0 = valid_trees(IL_RED, IL_RED + S_LEAVES[:1], [I, Vi], [B, Vb], 1, 2)
     out.append(dict(kind="space", name="large-indent", space=only_elements(blk0), fn=make_fn(big),
                     execs=len(big), note="depth<=1 fan-out<=2 trees under indent in {5..64}"))
+    cat = catalogue_cases()
+    out.append(dict(kind="space", name="catalogue-siblings", space=Const(cat), fn=make_fn(configs[:3]), execs=3,
+                    note="every tags.* / svg.* element with its own default whitespace flag (0/1/2 text children) "
+                         "in 4 sibling contexts"))
     return out
